@@ -451,8 +451,21 @@ func makeOptionalPtrDecoder(typ reflect.Type) (decoder, error) {
 	if err != nil {
 		return nil, err
 	}
+	// The encoder writes a nil pointer as an empty string (0x80), except a pointer to a struct
+	// or to a slice/array of non-byte elements, which it writes as an empty list (0xC0).
+	// Accept exactly that form, so that a nil pointer has one encoding.
+	nilKind := String
+	switch ek := etype.Kind(); {
+	case ek == reflect.Struct && !etype.AssignableTo(bigInt):
+		nilKind = List
+	case (ek == reflect.Slice || ek == reflect.Array) && etype.Elem().Kind() != reflect.Uint8:
+		nilKind = List
+	}
 	dec := func(s *Stream, val reflect.Value) (err error) {
 		kind, size, err := s.Kind()
+		if err == nil && size == 0 && kind != Byte && kind != nilKind {
+			return &decodeError{msg: "wrong kind of empty value for nil pointer", typ: typ}
+		}
 		if err != nil || size == 0 && kind != Byte {
 			// rearm s.Kind. This is important because the input
 			// position must advance to the next value even though
